@@ -103,8 +103,10 @@ impl Filter for BasicFilter {
                     .nanos()
                     .lossy_into();
             // and for the master
-            let interval_master: f64 = ((measurement.event_time - offset)
-                - (last_step.event_time - last_step.offset))
+            // (computed on the differences: the master's time itself need not be
+            // representable, e.g. close to the origin of the timescale)
+            let interval_master: f64 = ((measurement.event_time - last_step.event_time)
+                - (offset - last_step.offset))
                 .nanos()
                 .lossy_into();
 
